@@ -1,5 +1,6 @@
 import inspect
 import sys
+import threading
 from typing import Callable, Dict, List, Optional, Set, Tuple, Type, Union, Any
 
 from ..utils import exceptions as exc
@@ -67,6 +68,8 @@ class BaseParser:
         self.options: Options = self.options_cls.generate_from(options)
         self.output_options: Optional[Options] = None
 
+        self._forward_lock = threading.RLock()
+        self._forward_resolving = False
         self.forward_refs: Dict[
             str, Tuple[ForwardRef, dict]
         ] = {}  # store unresolved ref
@@ -209,8 +212,20 @@ class BaseParser:
         return item in self.fields
 
     def resolve_forward_refs(self, local_vars=None, ignore_errors: bool = True):
-        if not self.forward_refs:
+        if not self.forward_refs and not self._forward_resolving:
             return False
+        # the first parses of several threads get here together: one of them resolves, the others wait
+        # until the fields hold the resolved types (the table empties before the fields are updated)
+        with self._forward_lock:
+            if not self.forward_refs:
+                return False
+            self._forward_resolving = True
+            try:
+                return self._resolve_forward_refs(local_vars=local_vars, ignore_errors=ignore_errors)
+            finally:
+                self._forward_resolving = False
+
+    def _resolve_forward_refs(self, local_vars=None, ignore_errors: bool = True):
         clear_refs = []
         resolved = False
         # todo: add resolve hooks so that application code can execute lazy-load type process logic
